@@ -7,6 +7,8 @@ the reference world is synchronous and feeds the real stdlib function.  Both wor
 same kind of event log and share the very same item and exception objects.
 """
 
+import asyncio
+import collections.abc
 import functools
 import weakref
 
@@ -29,20 +31,8 @@ class Item:
             return self.key < other.key
         return NotImplemented
 
-    def __gt__(self, other):
-        if type(other) is Item:
-            return self.key > other.key
-        return NotImplemented
-
-    def __le__(self, other):
-        if type(other) is Item:
-            return self.key <= other.key
-        return NotImplemented
-
-    def __ge__(self, other):
-        if type(other) is Item:
-            return self.key >= other.key
-        return NotImplemented
+    # only ``<`` and ``==`` are defined - all that the stdlib's sorting, heap and min/max functions ever use
+    # (``a > b`` falls back to the reflected ``b < a``; ``<=`` and ``>=`` do not exist)
 
     def __eq__(self, other):
         if type(other) is Item:
@@ -138,8 +128,27 @@ class InjectedBase(BaseException):
         self.tag = tag
 
 
+class FalsyFault(Exception):
+    """An exception object that tests false"""
+
+    def __len__(self):
+        return 0
+
+
+class EqualFault(Exception):
+    """Exceptions with value equality"""
+
+    def __eq__(self, other):
+        return type(other) is type(self) and other.args == self.args
+
+    def __hash__(self):
+        return hash(self.args)
+
+
 FAULT_TYPES = (InjectedFault, TypeError, ValueError, LookupError, InjectedBase, RuntimeError,
-               AttributeError, KeyError, IndexError, OSError, AssertionError)
+               AttributeError, KeyError, IndexError, OSError, AssertionError,
+               EOFError, ZeroDivisionError, asyncio.CancelledError, NotImplementedError, MemoryError,
+               FalsyFault, EqualFault)
 
 
 def make_fault(kind, tag):
@@ -156,7 +165,7 @@ def make_fault(kind, tag):
 class World:
     """One instantiation of the parties of a scenario (async inside ``sim``, or sync)"""
 
-    __slots__ = ("sim", "log", "uses", "fault_party", "fault_index", "fault_exc", "fault_fired",
+    __slots__ = ("sim", "log", "uses", "fault_party", "fault_index", "fault_exc", "fault_fired", "fault2",
                  "sources", "fns", "use_after_fault", "repolls")
 
     def __init__(self, sim=None, own_log=False):
@@ -167,6 +176,7 @@ class World:
         self.fault_index = -1
         self.fault_exc = None
         self.fault_fired = False
+        self.fault2 = None  # an optional second fault (party, index, exc): whichever use comes first fires
         self.use_after_fault = []
         self.repolls = set()  # uses that re-poll a source which already reported its end
         self.sources = {}
@@ -179,18 +189,23 @@ class World:
 
 
 # --------------------------------------------------------------------------- sources
-SYNC_FLAVOURS = ("list", "tuple", "getitem", "sync_iter")
+SYNC_FLAVOURS = ("list", "tuple", "getitem", "sync_iter", "seq_abc", "set_abc")
+CONTAINER_FLAVOURS = ("list", "tuple", "getitem", "seq_abc", "set_abc")  # iterable more than once
 ASYNC_FLAVOURS = ("agen", "aiter_cls", "aiter_noclose", "aiterable", "aiter_full")
 EXTRA_FLAVOURS = ("aiter_throwonly",)  # only used where a check asks for it
 ALL_FLAVOURS = SYNC_FLAVOURS + ASYNC_FLAVOURS
-LOGGING_FLAVOURS = ("getitem", "sync_iter") + ASYNC_FLAVOURS
+LOGGING_FLAVOURS = ("getitem", "sync_iter", "seq_abc", "set_abc") + ASYNC_FLAVOURS
 
 
 class SrcPlan:
-    __slots__ = ("name", "items", "flavour", "suspend", "aclose_suspends", "fresh", "aclose_mode", "falsy")
+    __slots__ = ("name", "items", "flavour", "suspend", "aclose_suspends", "fresh", "aclose_mode", "falsy", "resilient",
+                 "iter_fault", "equal")
 
     def __init__(self, name, items, flavour="list", suspend=(), aclose_suspends=0, fresh=False, aclose_mode=0,
-                 falsy=False):
+                 falsy=False, resilient=False, iter_fault=None, equal=False):
+        self.resilient = resilient  # (async generator) handles exceptions thrown in at its yield and continues
+        self.iter_fault = iter_fault  # exception type raised by __iter__ / __aiter__ itself
+        self.equal = equal  # (class-based) compares and hashes equal to every other source flagged like this
         self.falsy = falsy  # the iterator / iterable object tests false (non-empty all the same)
         # 0: coroutine returning None   1: coroutine returning a truthy value
         # 2: plain method returning a hand-written awaitable (closing happens when that is awaited)
@@ -211,6 +226,9 @@ class SrcPlan:
             "aclose_suspends": self.aclose_suspends,
             "aclose_mode": self.aclose_mode,
             "falsy": self.falsy,
+            "resilient": self.resilient,
+            "iter_fault": self.iter_fault.__name__ if self.iter_fault is not None else None,
+            "equal": self.equal,
         }
 
 
@@ -272,6 +290,11 @@ class Source:
             self.failed = True
             world.log.append(("raise", self.name, k))
             raise world.fault_exc
+        if world.fault2 is not None and world.fault2[0] == self.name and world.fault2[1] == k:
+            world.fault_fired = True
+            self.failed = True
+            world.log.append(("raise", self.name, k))
+            raise world.fault2[2]
         i = self.cursor
         if self.closed:
             self.pulls_after_close += 1
@@ -328,6 +351,14 @@ class _Eos:
 _EOS = _Eos()
 
 
+def _iter_fault(src):
+    """``__iter__`` / ``__aiter__`` of a source that cannot be opened"""
+    exc_type = src.plan.iter_fault
+    if exc_type is not None:
+        src.world.log.append(("iter_raise", src.name))
+        raise make_fault(FAULT_TYPES.index(exc_type), "iter:%s" % src.name)
+
+
 class SyncIter:
     """One-shot synchronous iterator over a source (logging); also the reference twin"""
 
@@ -340,6 +371,7 @@ class SyncIter:
         return not self.src.plan.falsy
 
     def __iter__(self):
+        _iter_fault(self.src)
         return self
 
     def __next__(self):
@@ -366,6 +398,53 @@ class GetItemSeq:
         if got is _EOS:
             raise IndexError(index)
         return got
+
+
+class SeqAbc(collections.abc.Sequence):
+    """A user-defined ``collections.abc.Sequence``: instrumented ``__getitem__`` plus ``__len__``"""
+
+    __slots__ = ("src",)
+
+    def __init__(self, src):
+        self.src = src
+
+    __getitem__ = GetItemSeq.__getitem__
+
+    def __len__(self):
+        return len(self.src.plan.items)
+
+
+class SetAbc(collections.abc.Set):
+    """A user-defined ``collections.abc.Set`` whose iteration is instrumented (and may fail midway)"""
+
+    __slots__ = ("src",)
+
+    def __init__(self, src):
+        self.src = src
+
+    def __iter__(self):
+        _iter_fault(self.src)
+        return self._iterate()
+
+    def _iterate(self):
+        src = self.src
+        while True:
+            k = src._begin()
+            got = src._resolve(k)
+            if got is _EOS:
+                return
+            yield got
+
+    def __contains__(self, value):
+        return any(value == i for i in self.src.plan.items)
+
+    def __len__(self):
+        return len(self.src.plan.items)
+
+    __hash__ = object.__hash__
+
+    def __eq__(self, other):
+        return self is other
 
 
 async def _suspend_for(src, k):
@@ -401,7 +480,14 @@ async def _agen_stream(src):
             # hand the item over without keeping it in this frame while suspended at the yield
             hold = [got]
             del got
-            yield hold.pop()
+            if src.plan.resilient:
+                # a generator that survives errors thrown in at its yield and carries on with the next item
+                try:
+                    yield hold.pop()
+                except Exception as err:
+                    world.log.append(("thrown_into", src.name, type(err).__name__))
+            else:
+                yield hold.pop()
     except GeneratorExit:
         raise
     except BaseException:
@@ -420,10 +506,21 @@ class AIterCls:
     def __init__(self, src):
         self.src = src
 
+    def __eq__(self, other):
+        # value equality (two subscriptions to one topic): distinct objects all the same
+        if self is other:
+            return True
+        osrc = getattr(other, "src", None)
+        return bool(self.src.plan.equal and osrc is not None and getattr(osrc.plan, "equal", False))
+
+    def __hash__(self):
+        return 7 if self.src.plan.equal else object.__hash__(self)
+
     def __bool__(self):
         return not self.src.plan.falsy
 
     def __aiter__(self):
+        _iter_fault(self.src)
         return self
 
     async def __anext__(self):
@@ -485,10 +582,21 @@ class AIterNoClose:
     def __init__(self, src):
         self.src = src
 
+    def __eq__(self, other):
+        # value equality (two subscriptions to one topic): distinct objects all the same
+        if self is other:
+            return True
+        osrc = getattr(other, "src", None)
+        return bool(self.src.plan.equal and osrc is not None and getattr(osrc.plan, "equal", False))
+
+    def __hash__(self):
+        return 7 if self.src.plan.equal else object.__hash__(self)
+
     def __bool__(self):
         return not self.src.plan.falsy
 
     def __aiter__(self):
+        _iter_fault(self.src)
         return self
 
     __anext__ = AIterCls.__anext__
@@ -532,6 +640,7 @@ class AIterable:
         return not self.src.plan.falsy
 
     def __aiter__(self):
+        _iter_fault(self.src)
         self.src.n_iters += 1
         return AIterCls(self.src)
 
@@ -546,6 +655,10 @@ def make_async_source(world, plan):
         obj = tuple(plan.items)
     elif fl == "getitem":
         obj = GetItemSeq(src)
+    elif fl == "seq_abc":
+        obj = SeqAbc(src)
+    elif fl == "set_abc":
+        obj = SetAbc(src)
     elif fl == "sync_iter":
         obj = SyncIter(src)
     elif fl == "agen":
@@ -575,13 +688,18 @@ def make_ref_source(world, plan, as_container=False):
     elif plan.flavour == "getitem":
         # the sequence protocol treats IndexError as the end: the reference must see the same object kind
         src.obj = GetItemSeq(src)
+    elif plan.flavour == "seq_abc":
+        src.obj = SeqAbc(src)
+    elif plan.flavour == "set_abc":
+        src.obj = SetAbc(src)
     else:
         src.obj = SyncIter(src)
     return src
 
 
 # --------------------------------------------------------------------------- callables
-FN_FLAVOURS = ("def", "async", "partial_async", "obj_coro", "obj_awaitable", "obj_falsy", "cls_awaitable", "obj_future")
+FN_FLAVOURS = ("def", "async", "partial_async", "obj_coro", "obj_awaitable", "obj_falsy", "cls_awaitable", "obj_future",
+               "obj_unhashable")
 
 
 class FnPlan:
@@ -716,6 +834,11 @@ class Fn:
             self.failed = True
             world.log.append(("craise", self.name, k))
             raise world.fault_exc
+        if world.fault2 is not None and world.fault2[0] == self.name and world.fault2[1] == k:
+            world.fault_fired = True
+            self.failed = True
+            world.log.append(("craise", self.name, k))
+            raise world.fault2[2]
         if self.plan.kind == "combine_data":
             if k >= 1 and k % 2 == 1:
                 return DataAwaitable(world, self.name)
@@ -764,6 +887,17 @@ class _FalsyCallable(_CallableObj):
 
     def __len__(self):
         return 0
+
+
+class _UnhashableCallable(_CallableObj):
+    """A callable object with value equality and therefore no hash (a plain dataclass with __call__)"""
+
+    __slots__ = ()
+
+    def __eq__(self, other):
+        return type(other) is type(self)
+
+    __hash__ = None
 
 
 class _FutureLike(_HandAwaitable):
@@ -823,6 +957,8 @@ def make_async_fn(world, plan):
         fn.obj = _CallableObj(fn.awaitable_call)
     elif fl == "obj_falsy":
         fn.obj = _FalsyCallable(fn.async_call)
+    elif fl == "obj_unhashable":
+        fn.obj = _UnhashableCallable(fn.async_call)
     elif fl == "cls_awaitable":
         fn.obj = _awaitable_class(fn)
     elif fl == "obj_future":
